@@ -320,35 +320,42 @@ def namelen(ctx: Any) -> List[Ob]:
     for s in ctx.cg.callers_of(dec):
         obs.append(ob(R, s.caller, s.node, 'the label decoder is entered only through _read_name (or itself)', s.caller in (rn, dec)))
     cfg = cfg_of(rn.node)
-    rets = [n for n in cfg.nodes if n.kind == 'return']
-    if len(rets) != 1 or rets[0].ast.value is None:
-        raise AnalysisError('_read_name: expected a single return of the name')
-    rv = norm(rets[0].ast.value)
-    good = False
-    why = 'no dominating length check'
+    rets = [n for n in cfg.nodes if n.kind == 'return' and n.ast.value is not None]
+    if not rets:
+        raise AnalysisError('_read_name: no return of a name')
     h = Hierarchy(prog)
     dk = decode_exception_keys(ctx)
-    for t in cfg.nodes:
-        if t.kind == 'test' and cfg.dominates(t, rets[0]) and isinstance(t.ast, ast.Compare):
-            try:
-                p, op = lf.comparison(prog, rn.module, t.ast, lambda x: 'L' if isinstance(x, ast.Call) and norm(x.func) == 'len' and norm(x.args[0]) == rv else None)
-            except lf.NotLinear:
-                continue
-            if set(p) - {()} != {(('L', 1),)}:
-                continue
-            coef, const = p[(('L', 1),)], p.get((), 0)
-            K = float(-const / coef)
-            raise_arm = coef < 0
-            # p op 0 ; coef<0: true when L > K (op '<') or L >= K (op '<=')
-            limit = K if (op == '<') == raise_arm else K - (1 if raise_arm else -1)
-            arm = [s for s, lab in t.succ if lab is raise_arm]
-            raises = all(s.kind == 'raise' and all(any(h.is_sub(k, d) for d in dk) for k in (h.keys_of(rn.module, s.ast.exc) or ['?'])) for s in arm) and bool(arm)
-            max_len = K if op == '<' and raise_arm else (K - 1 if raise_arm else None)
-            if raises and max_len is not None and max_len <= 253:
-                good, why = True, f'names longer than {max_len:g} raise a decode exception'
-            else:
-                why = f'check `{norm(t.ast)}` allows names longer than 253 or does not raise a decode exception'
-    obs.append(ob(R, rn, f'return {rv}', 'a name longer than 253 characters is rejected before it is returned', good, why))
+    from .common import expand
+
+    for ret in rets:
+        rv = norm(ret.ast.value)
+        rv_x = norm(expand(rn, ret.ast.value))
+        good = False
+        why = 'no length check dominates this return'
+        for t in cfg.nodes:
+            if t.kind == 'test' and cfg.dominates(t, ret) and isinstance(t.ast, ast.Compare):
+                def sym(x: ast.AST) -> Optional[str]:
+                    if isinstance(x, ast.Call) and norm(x.func) == 'len' and len(x.args) == 1 and (norm(x.args[0]) == rv or norm(expand(rn, x.args[0])) == rv_x):
+                        return 'L'
+                    return None
+
+                try:
+                    p, op = lf.comparison(prog, rn.module, t.ast, sym)
+                except lf.NotLinear:
+                    continue
+                if set(p) - {()} != {(('L', 1),)}:
+                    continue
+                coef, const = p[(('L', 1),)], p.get((), 0)
+                K = float(-const / coef)
+                raise_arm = coef < 0
+                arm = [s_ for s_, lab in t.succ if lab is raise_arm]
+                raises = all(s_.kind == 'raise' and all(any(h.is_sub(k, d) for d in dk) for k in (h.keys_of(rn.module, s_.ast.exc) or ['?'])) for s_ in arm) and bool(arm)
+                max_len = K if op == '<' and raise_arm else (K - 1 if raise_arm else None)
+                if raises and max_len is not None and max_len <= 253:
+                    good, why = True, f'names longer than {max_len:g} raise a decode exception'
+                else:
+                    why = f'check `{norm(t.ast)}` allows names longer than 253 or does not raise a decode exception'
+        obs.append(ob(R, rn, f'return {rv}', 'a name longer than 253 characters is rejected before it is returned (on every returning path)', good, why))
     return obs
 
 
